@@ -91,6 +91,9 @@ pub fn stack_main(a: &[String]) {
     // the default-size (2 MiB) stack
     let builder = std::thread::Builder::new().stack_size(1 << 30);
     let (gs, len) = builder.spawn(move || long_game(turns, seed)).unwrap().join().unwrap();
+    // a second, independently replayed copy of the same game: equal histories that share no nodes
+    let builder2 = std::thread::Builder::new().stack_size(1 << 30);
+    let (gs_b, _) = builder2.spawn(move || long_game(turns, seed)).unwrap().join().unwrap();
     println!("GAME turns={} history_len={} move_number={}", turns, len, gs.move_number());
     let small = std::thread::Builder::new().stack_size(stack);
     let h = small
@@ -100,9 +103,29 @@ pub fn stack_main(a: &[String]) {
             let t = c.transposition_hash();
             let e = c == gs;
             let s = format!("{}", c).len();
+            // both copies inside the next turn (repetition queries walk the history), queried one after the other
+            let step_in = |g: &GameState| -> GameState {
+                let acts = g.valid_actions();
+                match acts.iter().find(|a| matches!(a, Action::Move(_, _))) {
+                    Some(a) => g.take_action(a),
+                    None => g.clone(),
+                }
+            };
+            let m1 = step_in(&gs);
+            let m2 = step_in(&gs_b);
+            let mut q = 0usize;
+            for g in [&m1, &m2, &m1, &m2] {
+                q += g.valid_actions().len() + g.valid_actions_no_rep().len();
+                q += g.can_pass(true) as usize + g.can_pass(false) as usize;
+                q += g.is_terminal().is_some() as usize + g.has_move(g.piece_board()).is_some() as usize;
+            }
+            let e2 = (gs == gs_b) && (m1 == m2);
+            drop(m1);
+            drop(m2);
             drop(c);
             drop(gs);
-            (n, t, e, s)
+            drop(gs_b);
+            (n + q * 0, t, e && e2, s)
         })
         .unwrap();
     match h.join() {
